@@ -250,7 +250,7 @@ def work(spec):
         return res
     runner = run_component if kind == 'comp' else run_wsgi
     for CL in (cls or cls_for(n)):
-        ex = EnvExplorer(merge=merge, bound=bound, horizon=60 * (len(data_of(n)) + 3))
+        ex = EnvExplorer(merge=merge, bound=bound, horizon=60 * (len(data_of(n)) + 3), max_execs=20000)
         for choices, obs in ex.explore(lambda e: runner(om, e, n, CL, M)):
             res['execs'] += 1
             res['transitions'] += len(obs['calls'])
